@@ -302,6 +302,11 @@ def main(argv=None) -> int:
             if v['sig'] in foreign:
                 foreign_seen.add(v['sig'])
                 continue
+            if v['sig'].startswith('encoder.'):
+                # the interpreter disagrees with CPython: a bug of the machinery, never a property violation (exit 3)
+                lines.append(f"CHECKER-ERROR {v['sig']}: {json.dumps(v['case'], default=str)} real={str(v['expected'])[:200]} interpreter={str(v['observed'])[:200]}")
+                checker_errors.append(v['sig'])
+                continue
             hit = next((k for k in bounded_known if k['sig'] == v['sig']), None)
             if hit is not None:
                 if hit['id'] not in known_printed:
